@@ -16,3 +16,6 @@ pub mod pub_c02_framing;
 
 #[path = "pub_c08_states.rs"]
 pub mod pub_c08_states;
+
+#[path = "pub_c07_defrag.rs"]
+pub mod pub_c07_defrag;
